@@ -263,6 +263,9 @@ class SimSocket(_RealSocket):
         w = _w()
         w.syscall()
         st = self._stream()
+        if self._stimeout is None:
+            # a blocking stream socket: the kernel returns only when everything was queued (or on error)
+            return self._send_blocking(w, st, data)
         f = w.fault('send', st)
         if f is not None:
             if f == 'eagain' and self._stimeout == 0.0:
@@ -301,6 +304,29 @@ class SimSocket(_RealSocket):
             st.io_times.append((w.now, 'send', n))
         w.ev(w.ename(), 'send', 'fd=%d %d/%d' % (self._sfd, n, len(data)))
         return n
+
+    def _send_blocking(self, w: World, st: Stream, data: Any) -> int:
+        f = w.fault('send', st)
+        if f is not None and f.startswith('E'):
+            e = getattr(errno, f)
+            w.ev(w.ename(), 'send', 'fd=%d %s(f)' % (self._sfd, f))
+            _apply_errno_side_effect(st, e)
+            raise _oserror(e)
+        mv = memoryview(data)
+        total = len(mv)
+        done = 0
+        while done < total:
+            try:
+                done += st.k_send(mv[done:])
+            except BlockingIOError:
+                w.block(st.writable, None, 'send')
+            except OSError as e:
+                w.ev(w.ename(), 'send', 'fd=%d %s' % (self._sfd, errno.errorcode.get(e.errno or 0, '?')))
+                raise
+        if st.io_times is not None:
+            st.io_times.append((w.now, 'send', done))
+        w.ev(w.ename(), 'send', 'fd=%d %d/%d (blocking)' % (self._sfd, done, total))
+        return done
 
     def sendall(self, data: Any, flags: int = 0) -> None:
         mv = memoryview(data)
